@@ -1663,6 +1663,53 @@ def selftest():
     altered("legal-list", lambda e: e["ev"] == "q" and e["what"] == "lg" and len(e["val"]) > 2, lambda e: e["val"].pop(), "C01")
     altered("take-back", lambda e: e["ev"] == "pop", lambda e: e["o"].__setitem__("sc", e["o"]["sc"] + 1), "C03")
     altered("fen-export", lambda e: e["ev"] == "q" and e["what"] == "fen", lambda e: e["val"].__setitem__(e["val"].index(" ") + 1, "b" if e["val"][e["val"].index(" ") + 1] == "w" else "w"), "C11")
+    # binding demo on a recorded UCI session of the real binary (TraceSession)
+    binary = core.build_bin(False)
+    steps = [{"send": "position startpos moves e2e4 e7e5"}, {"send": "go depth 3"}, {"waitbest": 20}, {"send": "show"},
+             {"send": "position fen 6k1/5ppp/8/8/8/8/5PPP/3R2K1 w - - 0 1"}, {"send": "go movetime 50"}, {"waitbest": 20},
+             {"send": "position startpos"}, {"send": "go infinite"}, {"send": "stop"}, {"waitbest": 20}, {"quit": True}]
+    sev = [{"ev": "session", "id": "selftest"}] + sessmod.run(binary, steps)
+    sp = os.path.join(d, "session.ndjson")
+
+    def session_fails(evs, tag):
+        with open(sp, "w") as f:
+            for e in evs:
+                f.write(json.dumps(e) + "\n")
+        return core.tlc_trace(sp, spec="TraceSession", tag="selftest-" + tag)["fails"]
+    say(not [f for f in session_fails(sev, "s0") if f["p"] not in ("DRIFT", "HARNESS")], "unaltered UCI session of %d events: no judgement fails" % len(sev))
+    bi = [i for i, e in enumerate(sev) if e["ev"] == "best"]
+    say(len(bi) == 3, "the session recorded three bestmove events")
+    if len(bi) == 3:
+        dup = sev[:bi[0] + 1] + [dict(sev[bi[0]])] + sev[bi[0] + 1:]
+        say(any(f["p"] == "C14" and f["line"] == bi[0] + 2 for f in session_fails(dup, "s1")), "a duplicated bestmove is reported as C14 at that event")
+        bad = [dict(e) for e in sev]
+        bad[bi[1]]["move"] = "d1d9"
+        say(any(f["line"] == bi[1] + 1 and f["p"] in ("C06", "C07") for f in session_fails(bad, "s2")), "an illegal bestmove is reported at that event")
+        drop = [dict(e) for e in sev[:bi[2]] + sev[bi[2] + 1:]]
+        for e in drop[bi[2]:]:
+            if e["ev"] == "waited":          # the driver would have waited in vain
+                e.update(ok=False, t=e["t"] + 10000)
+                break
+        say(any(f["p"] == "C14" for f in session_fails(drop, "s3")), "a bestmove after stop removed from the transcript is reported as C14")
+        pvi = [i for i, e in enumerate(sev) if e["ev"] == "pv" and len(e["line"]) >= 2]
+        if pvi:
+            bad = [dict(e) for e in sev]
+            bad[pvi[0]] = dict(bad[pvi[0]], line=[bad[pvi[0]]["line"][0], "a1a1"])
+            say(any(f["p"] == "C18" and f["line"] == pvi[0] + 1 for f in session_fails(bad, "s4")), "an unplayable pv line is reported as C18 at that event")
+    # binding demo on a window-level tree event (RefSearch!Contract)
+    script = os.path.join(d, "win.json")
+    json.dump({"cases": [{"fen": "8/2p5/3p4/KP5r/1R3p1k/8/4P1P1/8 w - - 0 1", "pre": [], "d": 2, "win": 6, "illegal": False, "seed": 7}]}, open(script, "w"))
+    wout = os.path.join(d, "win.ndjson")
+    core.sh([vh, "tree", "--script", script, "--out", wout], timeout=600)
+    wev = [json.loads(l) for l in open(wout)]
+    if wev and "runs" in wev[0]:
+        say(not core.tlc_trace(wout, spec="RefSearch", heap="6g", tag="selftest-w0")["fails"], "unaltered window searches (%d windows): contract holds" % len(wev[0]["runs"]))
+        wev[0]["runs"][0]["score"] += 1          # the full-window run: the exact value is required
+        with open(wout, "w") as f:
+            f.write(json.dumps(wev[0]) + "\n")
+        say(any(f["p"] == "C09" for f in core.tlc_trace(wout, spec="RefSearch", heap="6g", tag="selftest-w1")["fails"]), "an altered full-window result is reported as C09")
+    else:
+        say("skip" in (wev[0] if wev else {}), "window hook not built: window selftest skipped")
     shutil.rmtree(d, ignore_errors=True)
     print("selftest %s" % ("passed" if ok else "FAILED"))
     sys.exit(0 if ok else 2)
